@@ -277,7 +277,7 @@ func mwWriterOK(mw *mergeWriter) bool {
 }
 
 //@ func (mw *mergeWriter) flush
-//@   props C14
+//@   props C14 C13
 //@   ints bv
 //@   requires mwWF(mw) && mwItemsOK(mw) && mw.ct != nil && ctWF(mw.ct) && ctPosOK(mw.ct) && mwWriterOK(mw)
 //@   requires forallU64(func(h uint64) bool { return allocated(mw.ct.Items[h]) })
